@@ -162,7 +162,19 @@ def run_api(shard, mon, S):
     first = first_entries()
     named = listed_methods()
     table = data.countries()
+    from vf.props.c12 import build_iban_around  # noqa: PLC0415
+
+    foreign = {}
+    for (c2, k2) in lookup.by_key():
+        if c2 != "DE":
+            foreign.setdefault(k2, []).append(c2)
     for code in shard["codes"]:
+        for c2 in foreign.get(code, [])[:2]:
+            # another country lists the same key digits: touch its bank first (verdict must not depend on it)
+            t2 = build_iban_around(c2, code, table, env.rng("C07f", code, c2))
+            if t2:
+                observe(lambda t2=t2: (S.IBAN(t2).bank, S.IBAN(t2, validate_bban=True)))
+                mon.tally("foreign_same_key_touched_first")
         entry = first[code]
         ms = named.get(code, set())
         if len(ms) > 1:
@@ -198,6 +210,10 @@ def run_api(shard, mon, S):
                     mon.viol("api_bank_entry_not_first_in_file_order", w, entry, repr(bank)[:200])
             if a is accs[0]:
                 judge.repeated_validation_consistent(mon, text, o, w)
+                for form, arg in (("str", code + a), ("BBAN", S.BBAN("DE", code + a))):
+                    ofb = observe(S.IBAN.from_bban, "DE", arg, validate_bban=True)
+                    if ofb.ok != o.ok:
+                        mon.viol(f"from_bban_with_flag_disagrees:{form}", w, o.brief(), ofb.brief())
             if want == R.DONT_CARE:
                 mon.tally("api_dont_care")
                 continue
